@@ -19,6 +19,11 @@ def base_scenarios(rng, n):
     frames = server_frame(1, b'hello') + server_frame(9, b'pp') + server_frame(2, b'ab', fin=0) + server_frame(0, b'cd') + server_frame(8, close_payload(1000, b'bye'))
     out.append(Scenario(reads([sc.good_reply() + frames]) + [('wait', 1, ('eof',))], {3: [('send_text', ('s', [104]), True)], 4: [('send_binary', ('b', b'x'), True)]}, prate=0))
     out.append(Scenario(reads([sc.good_reply(), server_frame(1, b'a')]) + [('wait', 5, None), ('wait', 1, ('eof',))], {2: [('close', 1000, ('b', b'bye'))]}, prate=2))
+    # permessage-deflate negotiated: application data goes through the compressed send path (its own socket write)
+    gz = sc.good_reply(b'Sec-WebSocket-Extensions: permessage-deflate\r\n')
+    out.append(Scenario(reads([gz + server_frame(1, b'hello') + server_frame(9, b'pp')]) + [('wait', 1, ('eof',))],
+                        {2: [('send_text', ('s', [104, 105]), True)], 4: [('send_binary', ('b', b'xyz' * 30), True), ('send_text', ('s', [104]), False)], 5: [('send_json', ('obj', {'k': 'v'}))]},
+                        prate=0, compress=True))
     # a silent peer: only a timeout can end these (close timeout after the application's close(), ping timeout) - also when the
     # Close / the automatic Ping could not be written (faulted() injects a failure at every write index)
     out.append(Scenario(reads([sc.good_reply()]) + [('wait', 5, None)] * 6, {2: [('close', 1000, ('b', b'bye'))]}, poll=5, prate=0, ctimeout=10))
